@@ -112,7 +112,7 @@ impl<T: Copy> IpTable<T> {
 //@ rewrite `for \(net, value\) in self\.iter\(\) \{` => `for (vx_k, vx_v) in vx_it: self.table.iter() { let (net, value) = (vx_k.0, *vx_v);` ## IpTable::iter() is `self.table.iter().map(|(net, value)| (net.0, *value))`; the one-line adapter is inlined (closures passed to Iterator::map are outside Verus)
 //@ contract
     requires self.wf(),
-    ensures is_lpm(self.table@, val(address), r),   //# longest_prefix_match [C09]
+    ensures is_lpm(self.table@, val(address), r),   //# longest_prefix_match [C09,C16]
 //@ start
         proof { axiom_obm_key_obeys_cmp_spec(); }
 //@ before 1 `if net.contains(address)`
